@@ -104,13 +104,14 @@ func (e *Engine) twoDigits(st *State, x *Term) (*Term, *Term) {
 		v := x.C
 		return c.BV('0'+v/10%10, 8), c.BV('0'+v%10, 8)
 	}
-	hi := c.Fresh("dhi", SBV(64))
-	lo := c.Fresh("dlo", SBV(64))
-	// definitional (conditional on the range, so that it can never cut a path)
-	st.assume(c.Implies(c.BVUle(x, e.bv64(99)), c.And(c.BVUle(hi, e.bv64(9)), c.BVUle(lo, e.bv64(9)), c.Eq(x, c.BVAdd(c.BVMul(hi, e.bv64(10)), lo)))))
-	h8 := c.BVAdd(c.Extract(hi, 7, 0), c.BV('0', 8))
-	l8 := c.BVAdd(c.Extract(lo, 7, 0), c.BV('0', 8))
-	return h8, l8
+	hi := c.Fresh("dhi", SBV(4))
+	lo := c.Fresh("dlo", SBV(4))
+	// definitional (conditional on the range, so that it can never cut a path); 8-bit arithmetic: 99 < 2^8.
+	// The characters are concat(#x3, digit): their ASCII-ness is syntactic.
+	x8 := c.Extract(x, 7, 0)
+	st.assume(c.Implies(c.BVUle(x, e.bv64(99)), c.And(c.BVUle(hi, c.BV(9, 4)), c.BVUle(lo, c.BV(9, 4)),
+		c.Eq(x8, c.BVAdd(c.BVMul(c.ZeroExt(hi, 4), c.BV(10, 8)), c.ZeroExt(lo, 4))))))
+	return c.Concat(c.BV(3, 4), hi), c.Concat(c.BV(3, 4), lo)
 }
 
 // yearParts: y = 100*cc + yy with 0 <= cc,yy <= 99 (y in 0..9999)
@@ -119,10 +120,12 @@ func (e *Engine) yearParts(st *State, y *Term) (*Term, *Term) {
 	if y.IsConst() {
 		return e.bv64(int64(y.C / 100)), e.bv64(int64(y.C % 100))
 	}
-	cc := c.Fresh("ycc", SBV(64))
-	yy := c.Fresh("yyy", SBV(64))
-	st.assume(c.Implies(c.BVUle(y, e.bv64(9999)), c.And(c.BVUle(cc, e.bv64(99)), c.BVUle(yy, e.bv64(99)), c.Eq(y, c.BVAdd(c.BVMul(cc, e.bv64(100)), yy)))))
-	return cc, yy
+	cc16 := c.Fresh("ycc", SBV(16))
+	yy16 := c.Fresh("yyy", SBV(16))
+	// 16-bit arithmetic: 9999 < 2^16
+	y16 := c.Extract(y, 15, 0)
+	st.assume(c.Implies(c.BVUle(y, e.bv64(9999)), c.And(c.BVUle(cc16, c.BV(99, 16)), c.BVUle(yy16, c.BV(99, 16)), c.Eq(y16, c.BVAdd(c.BVMul(cc16, c.BV(100, 16)), yy16)))))
+	return c.ZeroExt(cc16, 48), c.ZeroExt(yy16, 48)
 }
 
 type layoutTok struct {
@@ -256,13 +259,14 @@ func (e *Engine) timeParse(st *State, layout string, s StrV, loc int, pos token.
 	ok := c.True
 	digit := func(b *Term) (*Term, *Term) {
 		d := c.BVSub(b, c.BV('0', 8))
-		return c.ZeroExt(d, 56), c.BVUle(d, c.BV(9, 8))
+		return d, c.BVUle(d, c.BV(9, 8))
 	}
 	num2 := func(i int) *Term {
 		h, okh := digit(s.B[i])
 		l, okl := digit(s.B[i+1])
 		ok = c.And(ok, okh, okl)
-		return c.BVAdd(c.BVMul(h, e.bv64(10)), l)
+		// 8-bit arithmetic (value <= 99 whenever both are digits), then widened
+		return c.ZeroExt(c.BVAdd(c.BVMul(h, c.BV(10, 8)), l), 56)
 	}
 	t := TimeV{Y: e.bv64(0), M: e.bv64(1), D: e.bv64(1), H: e.bv64(0), Mi: e.bv64(0), S: e.bv64(0), Ns: e.bv64(0), Loc: loc}
 	hasYear := false
@@ -278,7 +282,7 @@ func (e *Engine) timeParse(st *State, layout string, s StrV, loc int, pos token.
 		case "2006":
 			hi := num2(i)
 			lo := num2(i + 2)
-			t.Y = c.BVAdd(c.BVMul(hi, e.bv64(100)), lo)
+			t.Y = c.ZeroExt(c.BVAdd(c.BVMul(c.Extract(hi, 15, 0), c.BV(100, 16)), c.Extract(lo, 15, 0)), 48)
 			hasYear = true
 			i += 4
 		case "06":
